@@ -1096,41 +1096,84 @@ fn main() {
         do_grid(name, insts, &mut base);
     }
 
-    // matching-free cross-run on short streams
+    // matching-free cross-run on short streams: E = I/O errors allowed per run
     {
         let mut insts = vec![];
-        let cap = if quick { 10 } else { 12 };
+        let framed = |s: &Vec<usize>| -> usize { s.iter().map(|l| l + 2).sum() };
+        let (r1, r0, w1, w0) = if quick { (9, 12, 6, 9) } else { (10, 14, 7, 10) };
         for s in sequences(&[1, 2, 3, 5, 8], 3) {
-            let total: usize = s.iter().map(|l| l + 2).sum();
-            if total <= cap {
-                insts.push(Inst::new(format!("x-read{s:?}"), Wrapper::Plain, inbound_of(&s), &[], 1, false));
-                insts.push(Inst::new(format!("x-write{s:?}"), Wrapper::Plain, vec![], &s, 1, false));
+            let total = framed(&s);
+            if total <= r1 {
+                insts.push(Inst::new(format!("x-read{s:?} E=1"), Wrapper::Plain, inbound_of(&s), &[], 1, false));
+            } else if total <= r0 {
+                insts.push(Inst::new(format!("x-read{s:?} E=0"), Wrapper::Plain, inbound_of(&s), &[], 0, false));
+            }
+            if total <= w1 {
+                insts.push(Inst::new(format!("x-write{s:?} E=1"), Wrapper::Plain, vec![], &s, 1, false));
+            } else if total <= w0 {
+                insts.push(Inst::new(format!("x-write{s:?} E=0"), Wrapper::Plain, vec![], &s, 0, false));
             }
         }
-        for (i, o) in [(vec![1usize], vec![1usize]), (vec![2], vec![1]), (vec![1], vec![2])] {
-            insts.push(Inst::new(format!("x-joint in{i:?} out{o:?}"), Wrapper::Plain, inbound_of(&i), &o, 1, true));
+        insts.push(Inst::new("x-joint in[1] out[1] E=0".into(), Wrapper::Plain, inbound_of(&[1]), &[1], 0, true));
+        if !quick {
+            insts.push(Inst::new("x-joint in[1] out[1] E=1".into(), Wrapper::Plain, inbound_of(&[1]), &[1], 1, true));
+            insts.push(Inst::new("x-joint in[2] out[1] E=0".into(), Wrapper::Plain, inbound_of(&[2]), &[1], 0, true));
+            insts.push(Inst::new("x-joint in[1] out[2] E=0".into(), Wrapper::Plain, inbound_of(&[1]), &[2], 0, true));
         }
-        let results: Mutex<Vec<(usize, usize, u64)>> = Mutex::new(vec![]);
-        ctx.case_timeout_s.store(900, Ordering::Relaxed);
-        ctx.par_run(insts.len() as u64, 1, |i, l| {
-            let mut keys = HashSet::new();
-            let mut runs = 0u64;
-            let t0 = std::time::Instant::now();
-            free_dfs(&insts[i as usize], &mut vec![], &mut keys, &mut runs, l);
-            if std::env::var("VERIF_DEBUG").is_ok() {
-                eprintln!("[C17] free run {}: runs={} keys={} {:.1}s", insts[i as usize].label, runs, keys.len(), t0.elapsed().as_secs_f64());
+        // phase 1: all nodes of script length < D sequentially; nodes of length D become tasks
+        const D: usize = 7;
+        let mut keysets: Vec<HashSet<RunOut>> = insts.iter().map(|_| HashSet::new()).collect();
+        let mut runs: Vec<u64> = vec![0; insts.len()];
+        let mut tasks: Vec<(usize, Vec<Choice>)> = vec![];
+        ctx.with_local(|l| {
+            for (i, inst) in insts.iter().enumerate() {
+                let mut stack: Vec<Vec<Choice>> = vec![vec![]];
+                while let Some(script) = stack.pop() {
+                    if script.len() == D {
+                        tasks.push((i, script));
+                        continue;
+                    }
+                    let Some(o) = guarded_run(inst, &script, None, l) else { continue };
+                    runs[i] += 1;
+                    l.eval();
+                    let stop = o.violated || o.terminal != 0;
+                    let cs = if stop { vec![] } else { choices(inst, &o) };
+                    keysets[i].insert(o);
+                    for c in cs {
+                        let mut s2 = script.clone();
+                        s2.push(c);
+                        stack.push(s2);
+                    }
+                }
             }
-            results.lock().unwrap().push((i as usize, keys.len(), runs));
         });
-        let mut results = results.into_inner().unwrap();
-        results.sort();
-        let free_keys: usize = results.iter().map(|r| r.1).sum();
-        let free_runs: u64 = results.iter().map(|r| r.2).sum();
+        // phase 2: the subtrees in parallel
+        let results: Mutex<Vec<(usize, HashSet<RunOut>, u64)>> = Mutex::new(vec![]);
+        ctx.case_timeout_s.store(600, Ordering::Relaxed);
+        ctx.par_run(tasks.len() as u64, 1, |t, l| {
+            let (i, script) = &tasks[t as usize];
+            let mut keys = HashSet::new();
+            let mut n = 0u64;
+            free_dfs(&insts[*i], &mut script.clone(), &mut keys, &mut n, l);
+            results.lock().unwrap().push((*i, keys, n));
+        });
+        ctx.case_timeout_s.store(30, Ordering::Relaxed);
+        for (i, keys, n) in results.into_inner().unwrap() {
+            keysets[i].extend(keys);
+            runs[i] += n;
+        }
+        if std::env::var("VERIF_DEBUG").is_ok() {
+            for (i, inst) in insts.iter().enumerate() {
+                eprintln!("[C17] free run {}: runs={} keys={}", inst.label, runs[i], keysets[i].len());
+            }
+        }
+        let free_keys: usize = keysets.iter().map(|k| k.len()).sum();
+        let free_runs: u64 = runs.iter().sum();
         let n = insts.len();
         let st = do_grid("cross", insts, &mut base);
         ctx.set("cross_run", json!({"streams": n, "runs_without_matching": free_runs, "keys_without_matching": free_keys, "bfs_states": st.states}));
         eprintln!("[C17] cross-run: streams={n} runs={free_runs} keys={free_keys} bfs_states={} t={:.1}s", st.states, ctx.elapsed_s());
-        if free_keys as u64 != st.states {
+        if free_keys as u64 != st.states && only.is_none() {
             ctx.machinery_failure(&format!("cross-run: matching-free enumeration reached {free_keys} keys, BFS with matching {}", st.states));
         }
     }
